@@ -16,7 +16,10 @@
   implementation (same result from the same state) and absence of panics in
   the Go code — `step`/`run` are functions, which says nothing about Go maps,
   pools or precompile bodies; both are checked by the direct oracle of
-  `hx c16` (three runs per case, `Safe`).
+  `hx c16` (three runs per case, `Safe`).  Exceptions with theorems over
+  byte-faithful models: the jump-destination analysis, getData / getDataBig and
+  Memory.Set / Get / Resize (LemoProofs/C16Jump.lean, imported below) and the
+  length handling of MODEXP (Lemmas/EvmModExp).
   Depth: the interpreter runs at `evm.depth` 1 … CallCreateDepth+1 = 1025 (a call
   is refused when *made from* depth > 1024, exactly as in upstream geth); the
   literal "≤ 1024" holds for the depth at which calls are accepted
@@ -30,6 +33,7 @@ import LemoProofs.Lemmas.EvmJournal
 import LemoProofs.Lemmas.EvmStatic
 import LemoProofs.Lemmas.EvmModExp
 import LemoProofs.Lemmas.EvmGasLemmas
+import LemoProofs.C16Jump
 namespace LemoProofs.C16
 open LemoModel LemoModel.Evm LemoProofs.EvmShape LemoProofs.EvmJournal LemoProofs.EvmStatic
 
